@@ -308,12 +308,21 @@ def blk_generator(P: Proj, p: str, d: str, default_library: str) -> None:
     P.feat('generator')
     two = P.flip('generator.two', 0.35)
     names_h = [p + 'x', p + 'y'][:rng.randint(1, 2)]
-    for n in names_h:
-        P.val['V_' + n] = P.deffile(d, n)
+    # process(preserve_path_from:): inputs live in sub-directories of a tree whose layout is kept below the
+    # consumer's private directory (the outputs are then <sub>/<name>.h for producer AND consumers)
+    preserve = P.flip('generator.preserve', 0.3)
+    sub: T.Dict[str, str] = {}
+    for k, n in enumerate(names_h):
+        sub[n] = f's{k}/' if preserve else ''
+        P.val['V_' + n] = P.deffile(P.path(d, f'{p}in/s{k}') if preserve else d, n)
+    in_of = {n: (f'{p}in/{sub[n]}{n}.def' if preserve else f'{n}.def') for n in names_h}
+    pkw = f", preserve_path_from: meson.current_source_dir() / '{p}in'" if preserve else ''
+    if preserve:
+        P.feat('generator-preserve_path_from')
     gdep = P.pick('generator.depends', ['none', 'none', 'generator', 'process'])
     if gdep == 'none':
         P.emit(d, f"{p}_g = generator(py, arguments: [gen_path, 'hdr', '@BASENAME@', '@OUTPUT@', '@INPUT@'], output: '@BASENAME@.h')")
-        srcs = [f"{p}_g.process({', '.join(repr(n + '.def') for n in names_h)})"]
+        srcs = [f"{p}_g.process({', '.join(repr(in_of[n]) for n in names_h)}{pkw})"]
     else:
         # the generator's tool also reads a file made by a custom target: generator(depends:) / process(depends:)
         aux = P.deffile(d, p + 'aux')
@@ -323,7 +332,7 @@ def blk_generator(P: Proj, p: str, d: str, default_library: str) -> None:
                   f"  command: [py, gen, 'txt', '{p}_aux', '@OUTPUT@', '@INPUT@'])")
         P.ntargets += 1
         P.feat('generator-depends:' + gdep)
-        ins = ', '.join(repr(n + '.def') for n in names_h)
+        ins = ', '.join(repr(in_of[n]) for n in names_h) + pkw
         if gdep == 'generator':
             P.emit(d, f"{p}_g = generator(py, arguments: [gen_path, 'hdr', '@BASENAME@', '@OUTPUT@', '@INPUT@', {p}_aux.full_path()],\n"
                       f"  output: '@BASENAME@.h', depends: {p}_aux)")
@@ -356,7 +365,7 @@ def blk_generator(P: Proj, p: str, d: str, default_library: str) -> None:
         P.feat('generator-source')
     used = P.take(1)
     um, uc = P.use_of(used, rng)
-    hms = [(n + '.h', 'V_' + n) for n in names_h]
+    hms = [(sub[n] + n + '.h', 'V_' + n) for n in names_h]
     P.csrc(d, f'{p}_a.c', p + '_a', hms + ([two_hm] if two else []) + um, uc)
     fns.append(f'f_{p}_a')
     kind = P.pick('generator.libkind', ['static_library', 'static_library', 'shared_library', 'library'])
@@ -370,7 +379,7 @@ def blk_generator(P: Proj, p: str, d: str, default_library: str) -> None:
         # recursion over link_targets in get_generated_headers (flagged; see module docstring)
         pd = _private_dir(kind, name, default_library)
         pdir = f'{d}/{pd}' if d else pd
-        macros = [(f'{pdir}/{n}.h', 'V_' + n) for n in names_h]
+        macros = [(f'{pdir}/{sub[n]}{n}.h', 'V_' + n) for n in names_h]
         inc = ', include_directories: root_inc'
         P.feat('rely-link-recursion')
     src_kw = ''
@@ -416,7 +425,11 @@ def blk_ct_chain(P: Proj, p: str, d: str) -> None:
             if how == 'input':
                 body = f"input: [{pref}, '{nm}.def'], output: {outs},\n  command: {tool}]"
             elif how == 'depends':
-                body = (f"input: '{nm}.def', output: {outs}, depends: {prev},\n"
+                # depends: accepts an indexed custom target (ct[i]) as well as the whole target
+                dep_obj = pref if P.flip('ct_chain.depends_index', 0.6) else prev
+                if dep_obj != prev:
+                    P.feat('ct-chain:depends-on-index')
+                body = (f"input: '{nm}.def', output: {outs}, depends: {dep_obj},\n"
                         f"  command: {tool}, {pref}.full_path()]")
             else:
                 body = f"input: '{nm}.def', output: {outs},\n  command: {tool}, {pref}]"
